@@ -57,6 +57,15 @@ pub fn replay_file(path: &str) -> i32 {
                 Err(e) => format!("not-compiled: {e:?}"),
  Ok(b) => {
                     println!("under-constrained witness nodes (witness nodes, under-constrained): {:?}", drive::guard(|| drive::under_constrained_witnesses(&b.compiled)));
+                    // earlier satisfy_with_env calls on the same instance (same witness map, other environments)
+                    if let Some(J::Array(hist)) = j.get("earlier_envs_on_this_instance") {
+                        for h in hist {
+                            let lock = h.get("lock_time").and_then(|x| x.as_u64()).unwrap_or(0) as u32;
+                            let seq = h.get("sequence").and_then(|x| x.as_u64()).unwrap_or(0xffff_ffff) as u32;
+                            let o = drive::run_pruned_on(&b.compiled, b.cmr, drive::witness_map(&wit), &drive::env_with(lock, seq));
+                            println!("history step (lock_time {lock}, sequence {seq}): {}", o.class());
+                        }
+                    }
                     let out = if kind == "run" { drive::run(&b, drive::witness_map(&wit), &env) } else { drive::run_pruned(&b, drive::witness_map(&wit), &env) };
                     println!("outcome: {out:?}");
                     out.class().to_string()
